@@ -14,6 +14,11 @@ def main():
         seed = int(os.environ.get('VERIF_SEED') or '1')
     except ValueError:
         seed = 1
+    for stream in (sys.stdout, sys.stderr):
+        try:
+            stream.reconfigure(errors='backslashreplace')      # details may quote lone surrogates and other unencodable text
+        except Exception:
+            pass
     from pv import harness
     try:
         rc = harness.main(a.property.upper(), a.tier, seed, replay=a.replay)
